@@ -253,6 +253,14 @@ def _run(ctx):
     for i in range(8 if ctx.quick() else 80):
         lines, ids = pdbgen.multichain(rnd, nchains=rnd.randint(1, 3), separation=rnd.choice([12.0, 25.0, 60.0]), chains="ABCDEFG")
         inputs.append(("gen%d" % i, pdbgen.text(lines)))
+    # an ion written without chain identifier after a named chain, with the residue number of the acid it sits next to: only the
+    # chain column tells the two residues apart, and shifting the chain's numbers must change nothing
+    for i in range(2 if ctx.quick() else 10):
+        lines, ids = pdbgen.multichain(rnd, nchains=1, chains="ABC", twins=0.0)
+        li = pdbgen.add_ions(rnd, [l for l in lines], 1, rnd.choice(["CA", "ZN", "MG"]), blank_same_number=True)
+        if li is not None:
+            inputs.append(("blank-chain-ion%d" % i, pdbgen.text(li)))
+            ctx.count("inputs with a blank-chain hetero residue that shares a number with a protein residue")
     # the symmetric disulfide of a homodimer: two cysteines with the same residue name and number, in different chains
     hd = pdbgen.homodimer_ss(rnd)
     if hd is not None:
